@@ -373,7 +373,10 @@ def signature(run, trace, badl, clause, fin):
         zfirst = layers[0].startswith("zstd")
         if len(layers) > 1 and not zfirst:
             sig = "stacked-coding-zstd-not-first-listed"
-        elif e["op"] in ("readn", "readinto", "stream", "iter", "read"):
+        # the calls that meet EOF with an empty decoded buffer: sized reads, the read(amt) loop behind stream() /
+        # iteration on bodies that are not chunked, and read() only when nothing at all was left to read
+        elif e["op"] in ("readn", "readinto") or (e["op"] in ("stream", "iter") and f["framing"] != "chunked") \
+                or (e["op"] == "read" and e["len"] == 0 and badl > 1):
             sig = "zstd-incomplete-eof-reached-without-flush"
     if clause == "ok" and fin == "ConnNotReused":
         errs = [x["err"] for x in ev if x["err"]]
@@ -513,7 +516,10 @@ def runs_from_groups(groups, variants, seed):
                 continue
             scale = var.get("scale", 1)
             exact = co == "identity" and scale == 1 and dk in ("none", "cut", "badsize", "emptysize")
-            comparable = co == "identity" or de          # raw view of a coded body: model units are not bytes
+            # the model's unit lengths transfer to bytes for identity bodies (exactly) and for intact decoded bodies
+            # (deterministic calls); not for the raw view of a coded body, nor for a damaged coded stream, where how
+            # much of it still decodes is the codec's business
+            comparable = co == "identity" or (de and dk == "none" and "damage" not in case)
             preload = bool(ops and ops[0][0] == "data")
             real_ops = [(op, n * scale) for op, n in ops]
             gens = [op for op, _ in ops if op in bd.GEN_OPS]
